@@ -58,6 +58,18 @@ Proofs/Closures.vos Proofs/Closures.vok Proofs/Closures.required_vos: Proofs/Clo
 Proofs/Macros.vo Proofs/Macros.glob Proofs/Macros.v.beautified Proofs/Macros.required_vo: Proofs/Macros.v Base/Base.vo Model/Reader.vo Model/Printer.vo Model/Store.vo Model/Eval.vo Proofs/Lists.vo
 Proofs/Macros.vio: Proofs/Macros.v Base/Base.vio Model/Reader.vio Model/Printer.vio Model/Store.vio Model/Eval.vio Proofs/Lists.vio
 Proofs/Macros.vos Proofs/Macros.vok Proofs/Macros.required_vos: Proofs/Macros.v Base/Base.vos Model/Reader.vos Model/Printer.vos Model/Store.vos Model/Eval.vos Proofs/Lists.vos
+Proofs/Cont.vo Proofs/Cont.glob Proofs/Cont.v.beautified Proofs/Cont.required_vo: Proofs/Cont.v Base/Base.vo Model/Reader.vo Model/Printer.vo Model/Store.vo Model/Eval.vo Proofs/ReaderTotal.vo Proofs/EvalRel.vo Proofs/Lists.vo Proofs/Backquote.vo
+Proofs/Cont.vio: Proofs/Cont.v Base/Base.vio Model/Reader.vio Model/Printer.vio Model/Store.vio Model/Eval.vio Proofs/ReaderTotal.vio Proofs/EvalRel.vio Proofs/Lists.vio Proofs/Backquote.vio
+Proofs/Cont.vos Proofs/Cont.vok Proofs/Cont.required_vos: Proofs/Cont.v Base/Base.vos Model/Reader.vos Model/Printer.vos Model/Store.vos Model/Eval.vos Proofs/ReaderTotal.vos Proofs/EvalRel.vos Proofs/Lists.vos Proofs/Backquote.vos
+Spec/CoreSem.vo Spec/CoreSem.glob Spec/CoreSem.v.beautified Spec/CoreSem.required_vo: Spec/CoreSem.v Base/Base.vo Model/Reader.vo Model/Printer.vo Model/Store.vo Model/Eval.vo Proofs/Calls.vo
+Spec/CoreSem.vio: Spec/CoreSem.v Base/Base.vio Model/Reader.vio Model/Printer.vio Model/Store.vio Model/Eval.vio Proofs/Calls.vio
+Spec/CoreSem.vos Spec/CoreSem.vok Spec/CoreSem.required_vos: Spec/CoreSem.v Base/Base.vos Model/Reader.vos Model/Printer.vos Model/Store.vos Model/Eval.vos Proofs/Calls.vos
+Proofs/CoreRefine.vo Proofs/CoreRefine.glob Proofs/CoreRefine.v.beautified Proofs/CoreRefine.required_vo: Proofs/CoreRefine.v Base/Base.vo Model/Reader.vo Model/Printer.vo Model/Store.vo Model/Eval.vo Proofs/ReaderTotal.vo Proofs/EvalRel.vo Proofs/Lists.vo Proofs/Calls.vo Proofs/Cont.vo Spec/CoreSem.vo
+Proofs/CoreRefine.vio: Proofs/CoreRefine.v Base/Base.vio Model/Reader.vio Model/Printer.vio Model/Store.vio Model/Eval.vio Proofs/ReaderTotal.vio Proofs/EvalRel.vio Proofs/Lists.vio Proofs/Calls.vio Proofs/Cont.vio Spec/CoreSem.vio
+Proofs/CoreRefine.vos Proofs/CoreRefine.vok Proofs/CoreRefine.required_vos: Proofs/CoreRefine.v Base/Base.vos Model/Reader.vos Model/Printer.vos Model/Store.vos Model/Eval.vos Proofs/ReaderTotal.vos Proofs/EvalRel.vos Proofs/Lists.vos Proofs/Calls.vos Proofs/Cont.vos Spec/CoreSem.vos
+Props/C01.vo Props/C01.glob Props/C01.v.beautified Props/C01.required_vo: Props/C01.v Base/Base.vo Model/Reader.vo Model/Printer.vo Model/Store.vo Model/Eval.vo Model/Init.vo Proofs/EvalRel.vo Proofs/Cont.vo Proofs/CoreRefine.vo Spec/CoreSem.vo
+Props/C01.vio: Props/C01.v Base/Base.vio Model/Reader.vio Model/Printer.vio Model/Store.vio Model/Eval.vio Model/Init.vio Proofs/EvalRel.vio Proofs/Cont.vio Proofs/CoreRefine.vio Spec/CoreSem.vio
+Props/C01.vos Props/C01.vok Props/C01.required_vos: Props/C01.v Base/Base.vos Model/Reader.vos Model/Printer.vos Model/Store.vos Model/Eval.vos Model/Init.vos Proofs/EvalRel.vos Proofs/Cont.vos Proofs/CoreRefine.vos Spec/CoreSem.vos
 Props/C02.vo Props/C02.glob Props/C02.v.beautified Props/C02.required_vo: Props/C02.v Base/Base.vo Model/Reader.vo Model/Printer.vo Model/Store.vo Model/Eval.vo Model/Init.vo Proofs/Calls.vo
 Props/C02.vio: Props/C02.v Base/Base.vio Model/Reader.vio Model/Printer.vio Model/Store.vio Model/Eval.vio Model/Init.vio Proofs/Calls.vio
 Props/C02.vos Props/C02.vok Props/C02.required_vos: Props/C02.v Base/Base.vos Model/Reader.vos Model/Printer.vos Model/Store.vos Model/Eval.vos Model/Init.vos Proofs/Calls.vos
